@@ -150,7 +150,7 @@ func c04Stump(c *core.Ctx, stump u.Stump, cl claim, adds []Hash, only string, se
 	if only == "" || only == "Verify" {
 		s := cloneStump(stump)
 		err, bad := c04Call(c, "Verify", rows, len(cl.Targets), func() { setScn("Verify") }, func() error {
-			_, e := u.Verify(s, cloneHashes(cl.Hashes), u.Proof{Targets: cloneU64(cl.Targets), Proof: cloneHashes(cl.Proof)})
+			_, e := u.Verify(s, c04Hashes(cl.Hashes), u.Proof{Targets: cloneU64(cl.Targets), Proof: cloneHashes(cl.Proof)})
 			return e
 		})
 		if !bad {
@@ -160,7 +160,7 @@ func c04Stump(c *core.Ctx, stump u.Stump, cl claim, adds []Hash, only string, se
 	if only == "" || only == "Stump.Update" {
 		s := cloneStump(stump)
 		err, bad := c04Call(c, "Stump.Update", rows, len(cl.Targets), func() { setScn("Stump.Update") }, func() error {
-			_, e := s.Update(cloneHashes(cl.Hashes), cloneHashes(adds), u.Proof{Targets: cloneU64(cl.Targets), Proof: cloneHashes(cl.Proof)})
+			_, e := s.Update(c04Hashes(cl.Hashes), cloneHashes(adds), u.Proof{Targets: cloneU64(cl.Targets), Proof: cloneHashes(cl.Proof)})
 			return e
 		})
 		if !bad {
@@ -184,7 +184,7 @@ func c04Inst(c *core.Ctx, in *Inst, n uint64, cl claim, only string, setScn func
 	pr := func() u.Proof { return u.Proof{Targets: cloneU64(cl.Targets), Proof: cloneHashes(cl.Proof)} }
 	if only == "" || only == k+".Verify" {
 		err, bad := c04Call(c, k+".Verify", rows, len(cl.Targets), func() { setScn(k + ".Verify") }, func() error {
-			return in.U.Verify(cloneHashes(cl.Hashes), pr(), false)
+			return in.U.Verify(c04Hashes(cl.Hashes), pr(), false)
 		})
 		if !bad {
 			countOutcome(c, k+".Verify", err)
@@ -195,7 +195,7 @@ func c04Inst(c *core.Ctx, in *Inst, n uint64, cl claim, only string, setScn func
 	}
 	if only == "" || only == k+".VerifyPartialProof" {
 		err, bad := c04Call(c, k+".VerifyPartialProof", rows, len(cl.Targets), func() { setScn(k + ".VerifyPartialProof") }, func() error {
-			return in.MP.VerifyPartialProof(cloneU64(cl.Targets), cloneHashes(cl.Hashes), cloneHashes(cl.Proof), false)
+			return in.MP.VerifyPartialProof(cloneU64(cl.Targets), c04Hashes(cl.Hashes), cloneHashes(cl.Proof), false)
 		})
 		if !bad {
 			countOutcome(c, k+".VerifyPartialProof", err)
@@ -214,17 +214,33 @@ func c04Remember(c *core.Ctx, in *Inst, n uint64, cl claim, setScn func(entry st
 	rows := rm.Rows(n)
 	k := in.Cfg.Kind
 	err, bad := c04Call(c, k+".Verify(remember)", rows, len(cl.Targets), func() { setScn(k + ".Verify(remember)") }, func() error {
-		return in.MP.Verify(cloneHashes(cl.Hashes), u.Proof{Targets: cloneU64(cl.Targets), Proof: cloneHashes(cl.Proof)}, true)
+		return in.MP.Verify(c04Hashes(cl.Hashes), u.Proof{Targets: cloneU64(cl.Targets), Proof: cloneHashes(cl.Proof)}, true)
 	})
 	if !bad {
 		countOutcome(c, k+".Verify(remember)", err)
 	}
 	err, bad = c04Call(c, k+".VerifyPartialProof(remember)", rows, len(cl.Targets), func() { setScn(k + ".VerifyPartialProof(remember)") }, func() error {
-		return in.MP.VerifyPartialProof(cloneU64(cl.Targets), cloneHashes(cl.Hashes), cloneHashes(cl.Proof), true)
+		return in.MP.VerifyPartialProof(cloneU64(cl.Targets), c04Hashes(cl.Hashes), cloneHashes(cl.Proof), true)
 	})
 	if !bad {
 		countOutcome(c, k+".VerifyPartialProof(remember)", err)
 	}
+}
+
+// c04Hashes copies a claim's hash list; an empty list is handed over alternately as nil and as
+// an empty non-nil slice (a caller may do either; added after seeded change C04i, whose length
+// check let a zero-length list through).
+var c04EmptyFlip bool
+
+func c04Hashes(x []Hash) []Hash {
+	if len(x) == 0 {
+		c04EmptyFlip = !c04EmptyFlip
+		if c04EmptyFlip {
+			return []Hash{}
+		}
+		return nil
+	}
+	return cloneHashes(x)
 }
 
 func c04Cfgs(idx int) []InstCfg {
